@@ -30,10 +30,67 @@ def gen_cases(tier, seed):
     rng = np.random.default_rng(1000 + seed)
     n = 14 if tier == "quick" else 160
     specs = meshzoo.gen_mesh_specs(rng, n, max_sites=300 if tier == "quick" else 1200)
-    return [{"mesh": s, "seed": int(rng.integers(1 << 30)), "cost": 1} for s in specs]
+    cases = [{"mesh": s, "seed": int(rng.integers(1 << 30)), "cost": 1} for s in specs]
+    for j in range(1 if tier == "quick" else 3):
+        # more than 2^15 edges (~11-20 thousand sites): sparse-only identities after in-place refreshes
+        cases.append({"kind": "large", "nx": int([112, 130, 150][j]), "ny": int([110, 125, 140][j]), "seed": int(rng.integers(1 << 30)), "cost": 30, "mesh": {"kind": "large_hex"}})
+    return cases
+
+
+def _large_case(spec):
+    """A mesh with more than 2^15 edges: sparse-only identities of the operators in use after in-place refreshes."""
+    from tdgl.finite_volume.mesh import Mesh
+    from tdgl.finite_volume.operators import MeshOperators
+    from tdgl.solver.options import SparseSolver
+
+    rng = np.random.default_rng(spec["seed"])
+    mesh, info = meshzoo.build_mesh({"kind": "hex", "nx": spec["nx"], "ny": spec["ny"], "jitter": 0.05, "seed": spec["seed"]})
+    if mesh is None:
+        return {"violations": [], "counters": {"refused_mesh": 1}, "classes": ["refused"], "nontrivial": False}
+    em = mesh.edge_mesh
+    n, m = len(mesh.sites), len(em.edges)
+    a = np.asarray(mesh.areas)
+    V, C, worst = [], {"large_mesh_checks": 0}, {}
+    live = MeshOperators(mesh, SparseSolver.SUPERLU, fixed_sites=None)
+    try:
+        live.build_operators()
+    except RuntimeError as exc:
+        if "exactly singular" in str(exc):
+            return {"violations": [], "counters": {"refused_mesh": 1}, "classes": ["refused"], "nontrivial": False}
+        raise
+    for step, amp in enumerate((0.7, 2.0, 0.0, 1.3)):
+        A = rng.normal(size=(m, 2)) * amp
+        live.set_link_exponents(A)
+        C["large_mesh_checks"] += 1
+        L = sp.csr_matrix(live.psi_laplacian)
+        ML = sp.diags(a) @ L
+        h = abs(ML - ML.conj().T).max()
+        scale = abs(ML).max()
+        worst["live_covariant_hermitian"] = max(worst.get("live_covariant_hermitian", 0.0), float(h / (1e-12 * scale)))
+        if h > 1e-12 * scale:
+            V.append({"kind": "live_covariant_laplacian_not_hermitian", "mechanism": "live_covariant_laplacian_not_hermitian", "detail": {"asym": float(h), "scale": float(scale), "edges": m, "refresh": step}})
+        Lr = fv.laplacian_fast(n, em.edges, em.edge_lengths, em.dual_edge_lengths, a, em.directions, A)
+        d = fv.max_abs_diff(L, Lr)
+        if d > 1e-11 * abs(Lr).max():
+            V.append({"kind": "live_covariant_laplacian_ne_reference", "mechanism": "live_covariant_laplacian_ne_reference", "detail": {"max_abs_diff": float(d), "edges": m, "refresh": step}})
+        Gr = fv.gradient_fast(n, em.edges, em.edge_lengths, em.directions, A)
+        d = fv.max_abs_diff(sp.csr_matrix(live.psi_gradient), Gr)
+        if d > 1e-11 * abs(Gr).max():
+            V.append({"kind": "live_covariant_gradient_ne_reference", "mechanism": "live_covariant_gradient_ne_reference", "detail": {"max_abs_diff": float(d), "edges": m, "refresh": step}})
+        if amp == 0.0:
+            # (only for A = 0 is the Laplacian the divergence of the gradient: the covariant gradient lives on the edge, its
+            # parallel transport to the far site costs a phase)
+            DG = sp.csr_matrix(live.divergence) @ sp.csr_matrix(live.psi_gradient)
+            d = fv.max_abs_diff(L, DG)
+            if d > 1e-10 * abs(L).max():
+                V.append({"kind": "lap_ne_div_grad", "mechanism": "lap_ne_div_grad", "detail": {"max_abs_diff": float(d), "edges": m}})
+    return {"violations": V[:6], "counters": C, "worst": worst, "classes": ["large_mesh", f"edges>{(m // 10000) * 10000}"], "nontrivial": m > 32768,
+            "sample": {"sites": n, "edges": m}}
 
 
 def run_case(spec):
+    if spec.get("kind") == "large":
+        return _large_case(spec)
     from tdgl.finite_volume import operators as ops
 
     rng = np.random.default_rng(spec["seed"])
@@ -194,6 +251,19 @@ def run_case(spec):
             Gr = fv.gradient_fast(n, em.edges, em.edge_lengths, em.directions, A)
             if note("live_covariant_hermitian", fv.max_abs_diff(Gl, Gr), 1e-11 * abs(Gr).max()):
                 viol("live_covariant_gradient_ne_reference", {"amp": amp})
+            # a LOCALISED change: the next potential differs from this one on a subset of the edges only
+            sub = rng.random(m) < float(rng.choice([0.05, 0.3, 0.7]))
+            if sub.any() and not sub.all():
+                A2 = A.copy()
+                A2[sub] += rng.normal(size=(int(sub.sum()), 2))
+                live.set_link_exponents(A2)
+                ML = (sp.diags(a) @ sp.csr_matrix(live.psi_laplacian)).toarray()
+                h = float(np.abs(ML - ML.conj().T).max())
+                if note("live_covariant_hermitian", h, 1e-12 * float(np.abs(ML).max())):
+                    viol("live_covariant_laplacian_not_hermitian", {"asym": h, "after": "localised change of the potential", "fraction_of_edges": float(sub.mean())})
+                Lr2 = fv.laplacian_fast(n, em.edges, em.edge_lengths, em.dual_edge_lengths, a, em.directions, A2)
+                if note("ref_entrywise", fv.max_abs_diff(sp.csr_matrix(live.psi_laplacian), Lr2), 1e-11 * abs(Lr2).max()):
+                    viol("live_covariant_laplacian_ne_reference", {"after": "localised change of the potential"})
     except RuntimeError as exc:
         if "exactly singular" not in str(exc):
             raise
